@@ -22,7 +22,9 @@ vars == <<file, steps, defect>>
 View == <<file, defect>>
 NoDefect == [rule |-> "none", class |-> ""]
 
-Init == file \in InitFiles /\ steps = 0 /\ defect = NoDefect
+\* the quick C35 run starts from the three plain files only (its state space is multiplied by ~30 injections per file)
+Starts == IF Prop = "C35" /\ Tier = "quick" THEN {g \in InitFiles : g.feat = NoFS} ELSE InitFiles
+Init == file \in Starts /\ steps = 0 /\ defect = NoDefect
 Build == /\ defect = NoDefect /\ steps < MaxSteps
          /\ \E g \in Steps(file) : file' = g
          /\ steps' = steps + 1 /\ defect' = NoDefect
@@ -33,8 +35,8 @@ Next == Build \/ Inject
 
 StaysValid == defect = NoDefect => Valid(file, FALSE)
 InjectionInvalid == defect # NoDefect =>
-                      /\ defect.class \in Defects(file, FALSE)
-                      /\ (defect.class \notin UnresolvableClasses => defect.class \in Defects(file, TRUE))
+                      IF defect.class \in UnresolvableClasses THEN defect.class \in Defects(file, FALSE)
+                      ELSE defect.class \in Defects(file, TRUE) /\ Defects(file, FALSE) # {}
 ViewsConsistent == defect = NoDefect => ViewLaws(Views(file, FALSE))
 NormalForm == defect = NoDefect =>
                 LET n == Normal(file, FALSE) IN
